@@ -625,21 +625,38 @@ func minimiseAndConfirm(dir string, spec propSpec, prop string, f *failure, know
 	path = filepath.Join(verifDir, "replays", fmt.Sprintf("%s-%d-%d.json", prop, f.Seed, f.Index))
 	bb, _ := json.MarshalIndent(map[string]any{"property": prop, "engine": eng, "index": best.Index, "seed": best.Seed, "outcome": best.Outcome, "scenario": best.Scenario}, "", " ")
 	os.WriteFile(path, bb, 0o644)
-	// fresh-process replay
+	// fresh-process replay. The schedule, the pool decisions and every result replay
+	// exactly; what the simulator does not own is the race detector's shadow memory (four
+	// cells per word, evicted pseudo-randomly), so on a long run a race report can go
+	// missing in one process and not in the next. A replay that shows nothing is
+	// therefore repeated (minimised file twice, then the unminimised scenario) before the
+	// run is declared non-reproducing - which stays an infrastructure result, never a verdict.
 	rout := filepath.Join(dir, fmt.Sprintf("replay-%d.jsonl", n))
-	cmd = exec.Command(bin, "-engine", eng, "-prop", prop, "-sites", filepath.Join(dir, "sites.json"), "-replay", path, "-o", rout)
-	cmd.Env = workerEnv(dir, race, true)
-	cmd.Stderr = os.Stderr
-	cmd.Run()
-	r := readShard(rout)
-	if r.err != nil || len(r.fails) == 0 {
-		return path, false, true
-	}
+	var r shardResult
 	var oc struct {
 		Class string `json:"class"`
 	}
-	json.Unmarshal(r.fails[0].Outcome, &oc)
-	if oc.Class == "" {
+	for attempt := 0; attempt < 4; attempt++ {
+		if attempt == 2 {
+			orig := *f
+			orig.Kind = "replay-file"
+			bb, _ := json.MarshalIndent(map[string]any{"property": prop, "engine": eng, "index": orig.Index, "seed": orig.Seed, "outcome": orig.Outcome, "scenario": orig.Scenario}, "", " ")
+			os.WriteFile(path, bb, 0o644)
+		}
+		cmd = exec.Command(bin, "-engine", eng, "-prop", prop, "-sites", filepath.Join(dir, "sites.json"), "-replay", path, "-o", rout)
+		cmd.Env = workerEnv(dir, race, true)
+		cmd.Stderr = os.Stderr
+		cmd.Run()
+		r = readShard(rout)
+		oc.Class = ""
+		if r.err == nil && len(r.fails) > 0 {
+			json.Unmarshal(r.fails[0].Outcome, &oc)
+		}
+		if oc.Class != "" || !race {
+			break
+		}
+	}
+	if r.err != nil || len(r.fails) == 0 || oc.Class == "" {
 		return path, false, true
 	}
 	// with report suppression off the replay lists all of its races: re-match against the listed findings
